@@ -54,6 +54,10 @@ CLAIMED = {
          "Exploration: Mesh::section and Mesh::split on boxes, prisms, icospheres and tori in random pose with planes of any normal and offset (mesh vertices kept >= 1e-4*size from the plane): every returned vertex on plane and surface, consecutive vertices joined across one face, every crossing segment used exactly once, closed loops for watertight meshes, one loop with the hull perimeter for convex solids, empty result for a miss, split parts on their own sides with areas adding up, and commutation with rigid motion. Planes exactly through vertices/edges/faces and sections of open meshes are first executed in a sacrificial child process with memory and time limits.",
          "Known findings (dependency parry3d 0.18 intersection_with_local_plane does not terminate): sections whose polyline has free ends (open meshes) and some planes exactly through vertices, edges or faces. The in-process main stream relies on the 1e-4*size clearance (no non-termination observed in 280 000 sections).",
          "3 / C13"),
+ "C14": ("runtime monitor: sequential BTreeSet model over an independently evaluated per-face predicate; chains repeated across hash orders and starting-index permutations",
+         "Exploration: chains of 1-6 Add/Remove/Keep steps over facing(n, angle) and near_mesh(ref, all|any, distance, planar?, angle?) on boxes, spheres, tori and height fields with a slightly moved / partial reference mesh, from none / all / random index selections; after every step the library's selection must equal the model's set operation on every face whose predicate is outside the guard bands; the whole chain is repeated and re-run with permuted starting indices and must give the identical selection; create_from_indices / create_mesh must contain exactly the selected triangles (bit-equal coordinates, same winding) and only the vertices they use.",
+         "The per-vertex projection onto the reference mesh is taken from the public project_with_max_dist (declared exception); thresholds have guard bands (1e-9 relative, 1e-7 rad); empty selections are not turned into meshes.",
+         "3 / C14"),
  "C16": ("runtime monitor: brute-force signed-distance oracle for deviations; Vec / three-vector sequential models over random call histories for the aggregates; defining rule for the breakpoint table",
          "Exploration: point_curve2_deviation / line_surface_deviations / Mesh::measure_point_deviation (both modes) with measured points on both sides, in the 1e-6 coincidence band, at corners and beyond open ends; Distance2/Distance3 value, reversal, centre; histories of up to 200 SurfaceDeviationSet new/push/push_new calls with ties, equal extremes and one-signed values checked after every call against a Vec model (max, min, symmetric zone, len, order); histories of PointCloud try_new/empty/append/merge/create_from_indices/transform with consistent and inconsistent normal/colour presence (accepted operations append exactly, rejected ones change nothing, lengths stay equal); breakpoint tables queried at, between, one ulp around and beyond both ends.",
          "Deviation sign judged only where the closest edges/faces agree on the side; below the library's absolute 1e-6 coincidence threshold only |value| <= distance is required.",
